@@ -1,6 +1,7 @@
 import IPT.Model.Times
 import IPT.Model.Hijri
 import IPT.Model.Range
+import IPT.Model.Rng
 import IPT.Model.Qibla
 import IPT.Model.Bounded
 import IPT.Model.F64
@@ -332,7 +333,7 @@ def handle (toks : List String) : String :=
         (match s.toInt?, e.toInt? with
         | some s, some e =>
           -- prayer_times_dt_rng: the dates of the range in order, each the single-date result
-          let days := (rangeDates s e).map fun rd => (rd, prayerTimesDt p loc rd none)
+          let days := rngModel p loc s e
           (match days.find? (fun x => match x.2 with | .error _ => true | .ok _ => false) with
           | some (_, .error e) => showPanic e
           | _ =>
